@@ -67,6 +67,17 @@ class Poly:
     """coefficient of the degree-1 monomial `atom` (no other factors)."""
     return self.t.get(((atom, 1),), Fraction(0))
 
+  def divide_by_atom(self, atom):
+    """Exact quotient by one atom: every monomial must contain it exactly once."""
+    t = {}
+    for mon, c in self.t.items():
+      d = dict(mon)
+      if d.get(atom) != 1:
+        return None
+      del d[atom]
+      t[tuple(sorted(d.items()))] = c
+    return Poly(t)
+
   def __repr__(self):
     if not self.t:
       return '0'
